@@ -110,8 +110,12 @@ func (e *Enc) instr(in ssa.Instruction, st *State) {
 	case *ssa.If:
 		c := e.term(x.Cond)
 		b := x.Block()
-		e.edgeGuard[e.edgeKey(b, b.Succs[0])] = e.def(fmt.Sprintf("e_%d_%d", b.Index, b.Succs[0].Index), tAnd(e.curGuard, c))
-		e.edgeGuard[e.edgeKey(b, b.Succs[1])] = e.def(fmt.Sprintf("e_%d_%d", b.Index, b.Succs[1].Index), tAnd(e.curGuard, tNot(c)))
+		if g := tAnd(e.curGuard, c); g.S != "false" {
+			e.edgeGuard[e.edgeKey(b, b.Succs[0])] = e.def(fmt.Sprintf("e_%d_%d", b.Index, b.Succs[0].Index), g)
+		}
+		if g := tAnd(e.curGuard, tNot(c)); g.S != "false" {
+			e.edgeGuard[e.edgeKey(b, b.Succs[1])] = e.def(fmt.Sprintf("e_%d_%d", b.Index, b.Succs[1].Index), g)
+		}
 		e.backEdges(b, st)
 	case *ssa.Jump:
 		b := x.Block()
@@ -234,7 +238,7 @@ func (e *Enc) unop(x *ssa.UnOp, st *State) {
 func (e *Enc) binop(x *ssa.BinOp) {
 	a, b := e.term(x.X), e.term(x.Y)
 	t := x.X.Type()
-	cmp := func(op string) { e.setVal(x, Term{app(op, a.S, b.S), sBool}) }
+	cmp := func(op string) { e.setVal(x, tCmp(op, a, b)) }
 	switch x.Op {
 	case token.EQL:
 		if a.Sort != b.Sort {
@@ -405,7 +409,10 @@ func (e *Enc) backEdges(b *ssa.BasicBlock, st *State) {
 			continue
 		}
 		li := e.loops[s]
-		g := e.edgeGuard[e.edgeKey(b, s)]
+		g, live := e.edgeGuard[e.edgeKey(b, s)]
+		if !live {
+			continue
+		}
 		over := map[*ssa.Phi]Term{}
 		for _, in := range s.Instrs {
 			p, ok := in.(*ssa.Phi)
